@@ -100,7 +100,14 @@ class Unit:
         return cid, text
 
     def generate(self):
-        ents = parse_directive_lines(open(self.template).read().split('\n'))
+        raw = []
+        for l in open(self.template).read().split('\n'):
+            m = re.match(r'\s*//@\s*fragment\s+(\S+)', l)
+            if m:
+                raw += open(os.path.join(CONTRACTS, '_fragments', m.group(1))).read().split('\n')
+            else:
+                raw.append(l)
+        ents = parse_directive_lines(raw)
         out = []
         i = 0
         n = len(ents)
@@ -176,7 +183,36 @@ class Unit:
                 i = j + 1
             else:
                 raise Undecided('template: unknown directive %r' % cmd)
-        return '\n'.join(out)
+        text = '\n'.join(out)
+        if '// ---- vx:inline crate' in text:
+            text = self._finalize_inlined(text)
+        return text
+
+    def _finalize_inlined(self, text):
+        """inside inlined crates every fn that carries no contract of this unit becomes external_body:
+        it is type-checked by Verus but not verified, and callers see no contract for it."""
+        masked = mask(text)
+        ins = []
+        n_ext = 0
+        for m in re.finditer(r'// ---- vx:inline crate (\w+)', text):
+            e = text.find('// ---- vx:end-inline %s' % m.group(1), m.end())
+            for name, s, k, fe, ind in inl.fn_spans(text[m.end():e], masked[m.end():e]):
+                s += m.end()
+                before = text[max(0, s - 400):s]
+                tail = before.split('\n')[-4:]
+                if any('verifier::external' in t or 'vx:contracted' in t or 'verifier::spec' in t for t in tail):
+                    continue
+                # skip fns nested in a macro_rules or spec code
+                ins.append((s, ind + '#[verifier::external_body] /*vx:not-under-contract*/\n'))
+                n_ext += 1
+        out, last = [], 0
+        for pos, t in sorted(ins):
+            out.append(text[last:pos])
+            out.append(t)
+            last = pos
+        out.append(text[last:])
+        self.not_under_contract = n_ext
+        return ''.join(out)
 
     # -- extraction of one item
     def _locate(self, src, masked, path):
